@@ -3,6 +3,8 @@ package main
 import (
 	"bytes"
 	"context"
+	"crypto/sha256"
+	"encoding/hex"
 	"fmt"
 	"os"
 	"os/exec"
@@ -90,9 +92,24 @@ func runSolver(ctx context.Context, sp solverSpec, file string, timeout time.Dur
 // solveOne races the solvers on one obligation; the first decisive answer
 // (sat/unsat) wins. With all=true every solver is run to completion and
 // disagreements are reported.
+// queryCache (flag -cache, used by the self-test only, never by the registered checks): a query
+// whose exact text was already decided unsat is not solved again, so that a run on a tree that
+// differs in one function re-solves only that function's queries.
+var queryCache string
+
+func cacheFile(text string) string {
+	h := sha256.Sum256([]byte(text))
+	return filepath.Join(queryCache, hex.EncodeToString(h[:16]))
+}
+
 func solveOne(o *Obligation, dir string, timeout time.Duration, all bool, order []int) *SolveResult {
 	logic := "ALL"
 	text := o.Render(logic)
+	if queryCache != "" && !o.Canary {
+		if b, err := os.ReadFile(cacheFile(text)); err == nil && strings.HasPrefix(string(b), "unsat") {
+			return &SolveResult{Verdict: "unsat", Solver: "cache", All: map[string]string{"cache": "unsat"}}
+		}
+	}
 	file := filepath.Join(dir, sanitize(o.Name)+".smt2")
 	if len(file) > 240 {
 		file = file[:230] + fmt.Sprintf("_%d.smt2", len(o.Name))
@@ -144,6 +161,10 @@ func solveOne(o *Obligation, dir string, timeout time.Duration, all bool, order 
 		return res
 	}
 	res.Verdict, res.Solver, res.Secs = best.verdict, best.solver, best.secs
+	if queryCache != "" && best.verdict == "unsat" && !o.Canary {
+		_ = os.MkdirAll(queryCache, 0o755)
+		_ = os.WriteFile(cacheFile(text), []byte("unsat "+best.solver+"\n"), 0o644)
+	}
 	if best.verdict != "unsat" {
 		out := best.out
 		if len(out) > 2000 {
